@@ -25,7 +25,7 @@ func (g *Generator) cookClient(typeName string) {
 	g.data.QueryParamsMap = make(map[string][]string)
 	g.data.IsParamPtrMap = make(map[string]map[string]bool)
 	g.data.BodyParamMap = make(map[string]string)
-	g.data.QueryDictMap = make(map[string]string)
+	g.data.QueryDictMap = make(map[string][]string)
 	g.data.ReturnResultMap = make(map[string]struct {
 		Type  string
 		IsPtr bool
